@@ -186,8 +186,21 @@ def _unwrap_or_default(eng, t, a, fr, dt):
     if _disc_is(eng, e, 1):
         return e.pay[1][0]
     g = t.self_ty or ''
-    if 'String' in g:
+    inner = g[g.index('<') + 1:g.rindex('>')].strip() if '<' in g else ''
+    ib = type_base(inner) if inner else ''
+    if ib == 'String' or (not inner and 'String' in g):
         return Str(())
+    if ib in BITS:
+        return Int(ib, 0)
+    if ib == 'bool':
+        return False
+    if ib == 'Vec':
+        return VecV()
+    if ib in ('HashMap', 'HashSet', 'BTreeMap', 'BTreeSet'):
+        return MapV((), 'set' if ib.endswith('Set') else 'map')
+    if inner:
+        # a crate type: its own Default impl
+        return eng.call_path('<%s as Default>::default' % inner, [], fr.tsubst if fr else None)
     raise Unmodelled('unwrap_or_default for ' + g)
 
 
@@ -428,8 +441,8 @@ def _default(eng, t, a, fr, dt):
         return False
     if st == 'Vec':
         return VecV()
-    if st in ('HashMap', 'HashSet'):
-        return MapV((), 'set' if st == 'HashSet' else 'map')
+    if st in ('HashMap', 'HashSet', 'BTreeMap', 'BTreeSet'):
+        return MapV((), 'set' if st.endswith('Set') else 'map')
     raise Unmodelled('Default for ' + str(t.self_ty))
 
 
